@@ -706,6 +706,20 @@ def np_logical_and(eng, st, args, kw, node):
     return elementwise2(eng, st, lambda a, b: z3.And(truth(a), truth(b)), args[0], args[1], esort=BOOL)
 
 
+def np_tile(eng, st, args, kw, node):
+    """np.tile(v, (k, 1)) for a 1-D v: k rows, each a copy of v."""
+    reps = args[1]
+    if not (isinstance(reps, (tuple, list)) and len(reps) == 2 and isinstance(reps[1], int) and reps[1] == 1) or ndim_of(eng, st, args[0]) != 1:
+        raise OutOfSubset('np.tile form')
+    r = as_row(eng, st, args[0])
+    return Mat((reps[0], r.n), lambda x, y, r=r: r.fn(y), r.esort)
+
+
+def np_outer(eng, st, args, kw, node):
+    a, b = as_row(eng, st, args[0]), as_row(eng, st, args[1])
+    return Mat((a.n, b.n), lambda x, y, a=a, b=b: eng.binop(ast.Mult(), a.fn(x), b.fn(y), st), REAL if REAL in (a.esort, b.esort) else INT)
+
+
 def np_minimum(eng, st, args, kw, node):
     def f(a, b):
         x, y = num2(to_z3(a), to_z3(b))
@@ -1046,6 +1060,7 @@ def np_unique(eng, st, args, kw, node):
     st.pc.append(z3.ForAll([t], z3.Implies(z3.And(t >= 0, t < k), z3.And(wit(t) >= 0, wit(t) < n, z3.Select(inv, wit(t)) == t)), patterns=[wit(t)]))
     u = alloc(st, 1, fresh('uvals', A1I), (k,), INT)
     st.ghost['unique_witness_last'] = wit
+    st.ghost['unique_count_last'] = k
     return TupleV((u, alloc(st, 1, inv, (n,), INT, {'unique_k': k, 'unique_wit': wit})))
 
 
